@@ -67,9 +67,10 @@ func NewIndexKVStore(family kv.Family, cacheSize int, cacheTTL time.Duration) In
 		family:   family,
 		snapshot: family.GetSnapshot(),
 		mutable:  imap.NewIntMap[map[string]uint32](),
-		bucketCache: expirable.NewLRU(cacheSize, func(_ uint32, value *model.TrieBucket) {
-			value.Release()
-		}, cacheTTL),
+		// no evict callback: a cached bucket is shared with the lookups which got it from the cache and may still
+		// read it when it is evicted/purged, so its tries must not go back to the pool(they would be reused for
+		// another bucket under the reader), the garbage collector frees them.
+		bucketCache: expirable.NewLRU[uint32, *model.TrieBucket](cacheSize, nil, cacheTTL),
 	}
 }
 
